@@ -671,7 +671,8 @@ def register_all(M):
 
     def slice_range(I, sl, rng, ext):
         # Range / RangeFrom / RangeTo / RangeFull over a slice pointer
-        rt = P.tys[[x['ty'] for x in ext['args'] if 'ty' in x][-1]]
+        cands = [P.tys[x['ty']] for x in ext['args'] if 'ty' in x]
+        rt = next((t for t in cands if 'Range' in t.get('name', '')), cands[-1])
         n = sl.meta
         name = rt.get('name', '')
         f = rng.f
@@ -683,6 +684,10 @@ def register_all(M):
             lo, hi = 0, f[0]
         elif name.endswith('RangeFull'):
             lo, hi = 0, n
+        elif name.endswith('RangeToInclusive'):
+            lo, hi = 0, f[0] + 1
+        elif name.endswith('RangeInclusive'):
+            lo, hi = f[0], f[1] + 1
         else:
             raise Unsupported('slice index by %s' % rt['str'])
         lo = I.ctx.concretize(lo)
@@ -1077,7 +1082,7 @@ def register_all(M):
         m = deref_to_value(a[0])
         return Ptr(m.f[0], a[1].v)
 
-    @reg("enum_map::iter::<impl std::iter::IntoIterator for &'a enum_map::EnumMap<K, V>>::into_iter", 'enum_map::EnumMap::<K, V>::iter')
+    @reg("enum_map::iter::<impl std::iter::IntoIterator for &'a enum_map::EnumMap<K, V>>::into_iter", 'enum_map::EnumMap::<K, V>::iter', 'enum_map::iter::<impl enum_map::EnumMap<K, V>>::iter')
     def enummap_iter(I, ext, a):
         m = deref_to_value(a[0])
         return IterObj(m.f[0], 0, len(m.f[0].f), 'enum')
@@ -1091,7 +1096,7 @@ def register_all(M):
         it.pos += 1
         return r
 
-    @reg('enum_map::EnumMap::<K, V>::values')
+    @reg('enum_map::EnumMap::<K, V>::values', 'enum_map::iter::<impl enum_map::EnumMap<K, V>>::values')
     def enummap_values(I, ext, a):
         m = deref_to_value(a[0])
         return IterObj(m.f[0], 0, len(m.f[0].f), 'ref')
@@ -3971,3 +3976,129 @@ _old6_register_all = register_all
 def register_all(M):  # noqa: F811
     _old6_register_all(M)
     register_batch7(M)
+
+
+# ----------------------------------------------------------------------------- batch 8
+def register_batch8(M):
+    """try_fold of the container iterators (what find / any / all / position compile to), slice indexing by ranges"""
+    P = M.p
+    reg = M.reg
+    reg_re = M.reg_re
+    call_callable = M.call_callable
+
+    def targs(ext):
+        return [a['ty'] for a in ext['args'] if 'ty' in a]
+
+    def try_protocol(rtid):
+        """(is_continue(value) -> payload or None, from_output(acc)) for the Try types used in practice"""
+        t = P.tys[rtid]
+        name = t.get('name', '')
+        if name == 'std::ops::ControlFlow':
+            return (lambda r: (r.f[0],) if r.v == 0 else None), (lambda acc: Enum(0, [acc]))
+        if name == 'std::option::Option':
+            return (lambda r: (r.f[0],) if r.v == 1 else None), (lambda acc: Enum(1, [acc]))
+        if name == 'std::result::Result':
+            return (lambda r: (r.f[0],) if r.v == 0 else None), (lambda acc: Enum(0, [acc]))
+        if name == 'std::ops::try_trait::NeverShortCircuit':
+            return (lambda r: (r.f[0],)), (lambda acc: Agg([acc]))
+        raise Unsupported('try_fold with result type %s' % t['str'])
+
+    def try_fold(I, ext, step, a):
+        ts = targs(ext)
+        rtid, ftid = ts[-1], ts[-2]
+        cont, from_output = try_protocol(rtid)
+        acc = a[1]
+        while True:
+            x = step()
+            if x is None:
+                return from_output(acc)
+            r = call_callable(I, ftid, a[2], [acc, x])
+            c = cont(r)
+            if c is None:
+                return r
+            acc = c[0]
+
+    CONT = (r"std::collections::hash_map::\w+<.*>|std::collections::hash_set::\w+<.*>|std::vec::IntoIter<T, A>|std::vec::Drain<.*>|"
+            r"enum_map::iter::\w+<.*>|lru::Iter<.*>|std::slice::(Chunks|Windows|ChunksExact)<'a, T>|std::str::(Bytes|Chars)<'.*>")
+
+    @reg_re(r"^<(" + CONT + r") as std::iter::Iterator>::try_fold$")
+    def cont_try_fold(I, ext, a):
+        dn = ext['dname']
+        nxt = M.find({'dname': dn.rsplit('::', 1)[0] + '::next'})
+        if nxt is None:
+            raise Unsupported('no next model for ' + dn)
+        def step():
+            r = nxt(I, ext, [a[0]])
+            return r.f[0] if r.v == 1 else None
+        return try_fold(I, ext, step, a)
+
+    @reg_re(r"^<(std::collections::hash_map::\\w+<.*>|std::collections::hash_set::\\w+<.*>|std::vec::IntoIter<T, A>|enum_map::iter::\\w+<.*>) as std::iter::(Iterator>::size_hint|ExactSizeIterator>::len)$")
+    def cont_iter_len(I, ext, a):
+        it = deref_to_value(a[0])
+        if type(it) is ListIter:
+            n = len(it.items)
+        elif type(it) is IterObj:
+            if it.extra is not None and isinstance(it.extra, list):
+                n = len(it.extra) - it.pos
+            elif it.end is not None:
+                n = it.end - it.pos
+            else:
+                n = len(it.c.f) - it.pos
+        else:
+            raise Unsupported('size of iterator %r' % (it,))
+        if ext['dname'].endswith('size_hint'):
+            return Agg([n, some(n)])
+        return n
+
+    @reg_re(r"^<std::slice::Iter(Mut)?<'a, T> as std::iter::Iterator>::try_fold$")
+    def slice_try_fold(I, ext, a):
+        it = deref_to_value(a[0])
+        def step():
+            if it.pos >= it.end:
+                return None
+            p = Ptr(it.c, it.pos)
+            it.pos += 1
+            return p
+        return try_fold(I, ext, step, a)
+
+    @reg('std::slice::index::<impl std::ops::Index<I> for [T]>::index', 'std::slice::index::<impl std::ops::IndexMut<I> for [T]>::index_mut')
+    def slice_index(I, ext, a):
+        s = a[0]
+        idx = a[1]
+        if type(idx) in (Agg, Enum):
+            rt = P.tys[targs(ext)[-1]]
+            name = rt.get('name', '')
+            n = s.meta
+            f = idx.f
+            if name.endswith('ops::Range'):
+                lo, hi = f[0], f[1]
+            elif name.endswith('RangeFrom'):
+                lo, hi = f[0], n
+            elif name.endswith('RangeTo'):
+                lo, hi = 0, f[0]
+            elif name.endswith('RangeFull'):
+                lo, hi = 0, n
+            elif name.endswith('RangeInclusive'):
+                lo, hi = f[0], f[1] + 1
+            elif name.endswith('RangeToInclusive'):
+                lo, hi = 0, f[0] + 1
+            else:
+                raise Unsupported('slice index by %s' % rt['str'])
+            lo = I.ctx.concretize(lo) if is_sym(lo) else lo
+            hi = I.ctx.concretize(hi) if is_sym(hi) else hi
+            if lo > hi or hi > n:
+                raise RustPanic('range end index %d out of range for slice of length %d' % (hi, n), 'bounds')
+            return Ptr(s.c, s.i + lo, hi - lo)
+        if is_sym(idx):
+            idx = I.ctx.concretize(idx)
+        if idx < 0 or idx >= s.meta:
+            raise RustPanic('index out of bounds: the len is %d but the index is %d' % (s.meta, idx), 'bounds')
+        return Ptr(s.c, s.i + idx)
+
+
+_old7_register_all = register_all
+
+
+def register_all(M):  # noqa: F811
+    _old7_register_all(M)
+    register_batch8(M)
